@@ -121,19 +121,24 @@ def receive (sh : Shared) (it : Iter) (x : Int) (next : PC) : Iter :=
 def crashWith (it : Iter) (e : PyErr) : Iter :=
   { it with pc := .done, crash := some e, res := some (.err e) }
 
+/-- the test on the first line of a query method: `self._cache_complete` (`count`: `self._len is not None`) -/
+def entryKnown (sh : Shared) : Query → Bool
+  | .count => sh.len.isSome
+  | _ => sh.complete
+
+/-- the answer on the fast path -/
+def entryRes (sh : Shared) : Query → Res
+  | .count => answer sh .count []
+  | q => fast q sh.cache
+
 /-- one statement of thread `t`; `none` = not enabled (blocked in `acquire()`, or finished) -/
 def stepIter (sh : Shared) (t : Tid) (it : Iter) : Option (Shared × Iter) :=
   match it.pc with
   | .start => some (sh, { it with pc := if hasEntryCheck it.q then .entry else .l106 })
   | .entry =>
     -- `if self._cache_complete: return self._cache[item]` …  /  count: `if self._len is None`
-    let known := match it.q with | .count => sh.len.isSome | _ => sh.complete
-    if known then
-      some (sh, { it with pc := .done,
-                          res := some (match it.q with
-                                       | .count => answer sh .count []
-                                       | q => fast q sh.cache) })
-    else some (sh, { it with pc := .l106 })
+    some (sh, if entryKnown sh it.q then { it with pc := .done, res := some (entryRes sh it.q) }
+              else { it with pc := .l106 })
   | .l106 => some (sh, { it with pc := if sh.complete then .l107 else .l108 })
   | .l107 =>
     let it' := { it with pending := sh.cache }
@@ -143,9 +148,9 @@ def stepIter (sh : Shared) (t : Tid) (it : Iter) : Option (Shared × Iter) :=
     -- the generator object is created; a consumer that never calls next() drops it unstarted
     some (sh, if stops it.q [] then finish sh it else { it with pc := .l125 })
   | .listIter =>
-    match it.pending with
-    | [] => some (sh, finish sh it)
-    | x :: rest => some (sh, receive sh { it with pending := rest } x .listIter)
+    some (sh, match it.pending with
+              | [] => finish sh it
+              | x :: rest => receive sh { it with pending := rest } x .listIter)
   | .l125 => some (sh, { it with i := 0, pc := .l126 })
   | .l126 => some (sh, { it with hasGen := !sh.genNone, pc := .l127 })
   | .l127 => some (sh, { it with pc := .l128 })
@@ -173,18 +178,18 @@ def stepIter (sh : Shared) (t : Tid) (it : Iter) : Option (Shared × Iter) :=
   | .l142 => some (sh, { it with brk := true, pc := .l144 })
   | .l144 => some ({ sh with lock := none }, { it with pc := if it.brk then .l147 else .l145 })
   | .l145 =>
-    match sh.cache[it.i]? with
-    | some x => some (sh, receive sh it x .l146)
-    | none => some (sh, crashWith it .IndexError)
+    some (sh, match sh.cache[it.i]? with
+              | some x => receive sh it x .l146
+              | none => crashWith it .IndexError)
   | .l146 => some (sh, { it with i := it.i + 1, pc := .l130 })
   | .l147 =>
-    match sh.len with
-    | none => some (sh, crashWith it .TypeError)
-    | some n => some (sh, if it.i < n then { it with pc := .l148 } else finish sh it)
+    some (sh, match sh.len with
+              | none => crashWith it .TypeError
+              | some n => if it.i < n then { it with pc := .l148 } else finish sh it)
   | .l148 =>
-    match sh.cache[it.i]? with
-    | some x => some (sh, receive sh it x .l149)
-    | none => some (sh, crashWith it .IndexError)
+    some (sh, match sh.cache[it.i]? with
+              | some x => receive sh it x .l149
+              | none => crashWith it .IndexError)
   | .l149 => some (sh, { it with i := it.i + 1, pc := .l147 })
   | .done => none
 
